@@ -166,6 +166,9 @@ type Hooks struct {
 	// LoopNeutral tells whether one loop iteration left the tracked state
 	// unchanged (defaults to SameEffect).
 	LoopNeutral func(a, b *State) bool
+	// CaseMatch is told that a tagged switch with a non-constant tag takes
+	// (taken) or skips the case expression; returning false drops the path.
+	CaseMatch func(in *Interp, st *State, tag Value, caseExpr ast.Expr, taken bool) bool
 }
 
 type Interp struct {
@@ -711,8 +714,13 @@ func (in *Interp) switchArms(st *State, s *ast.SwitchStmt, tag *Value) []*State 
 						case triFalse:
 							still = append(still, st)
 						default:
-							runFrom(st.clone(), i)
-							still = append(still, st)
+							t := st.clone()
+							if in.h.CaseMatch == nil || in.h.CaseMatch(in, t, *tag, e, true) {
+								runFrom(t, i)
+							}
+							if in.h.CaseMatch == nil || in.h.CaseMatch(in, st, *tag, e, false) {
+								still = append(still, st)
+							}
 						}
 					} else {
 						for _, b := range in.branch(st, e) {
